@@ -579,14 +579,18 @@ class Sim:
 # generator
 # --------------------------------------------------------------------------------------------------
 BACKENDS = [("ntt120ref", 52), ("fft64ref", 17), ("ntt120avx", 52), ("fft64avx", 17)]
+F128 = ("ntt120ref128", 52)      # f128 plaintexts (max_log_delta_prec 113); NTT120 only, as in the crate's own f128 tests
 
 
 class Gen:
     def __init__(self, rng, be, q, n):
         self.r = rng
         self.be, self.q, self.n = be, q, n
-        self.maxprec = 53
-        if q == 52:
+        self.maxprec = 113 if be.endswith("128") else 53
+        if be.endswith("128"):
+            sizes = [rng.range(8, 12) for _ in range(rng.range(3, 4))]
+            self.dlo, self.dhi = 56, 100
+        elif q == 52:
             sizes = [rng.range(3, 5) for _ in range(rng.range(3, 5))]
             self.dlo, self.dhi = 18, 40
         else:
@@ -610,7 +614,7 @@ class Gen:
         if boundary:
             c = r.below(6)
             if c == 0:
-                return (r.range(50, 60), r.range(0, 4))          # around the f64 precision bound 53
+                return (r.range(self.maxprec - 3, self.maxprec + 7), r.range(0, 4))     # around the precision bound of the float type
             if c == 1:
                 return (0, 0)                                    # zero precision
             if c == 2:
@@ -618,7 +622,7 @@ class Gen:
             if c == 3:
                 return (r.range(1, 6), 0)
         d = self.delta if r.chance(2, 3) else max(1, self.delta + r.range(-8, 8))
-        return (min(d, 53), r.range(0, 12))
+        return (min(d, self.maxprec), r.range(0, 12))
 
     def candidate(self, sim, boundary):
         r, q = self.r, self.q
@@ -1186,7 +1190,7 @@ def run(ctx):
         max_steps = 12 if quick else 16
         lines = []
         for p in range(n_prog):
-            be, q = BACKENDS[p % 4]
+            be, q = BACKENDS[p % 4] if p % 10 != 9 else F128
             n = 16 if (p // 4) % 3 else 64
             g = Gen(rng.fork(), be, q, n)
             ops = g.program(g.r.range(4, max_steps))
@@ -1195,6 +1199,11 @@ def run(ctx):
         for off in range(0, len(lines), 500):
             judge(lines[off:off + 500], "gen")
         ctx.cov["programs"] = len(lines)
+        per_be = {}
+        for l in lines:
+            b = l.split()[0][3:]
+            per_be[b] = per_be.get(b, 0) + 1
+        ctx.cov["programs_per_backend"] = per_be
         # ---- encode → decode identity
         rt = []
         r2 = rng.fork()
@@ -1203,7 +1212,10 @@ def run(ctx):
             d = r2.range(4, 53)
             b = r2.range(0, 12)
             mag = r2.choice([1.0, 0.5, 2.0 ** max(0, b - 2), 2.0 ** max(0, b - 1) * 0.69])   # 0.69 ≈ 0.98/√2: slot bound → coefficient bound
-            rt.append((q, d, b, mag, f"{k} roundtrip n={r2.choice([16, 64])} base2k={q} delta={d} budget={b} mag={mag} seed={k}"))
+            fl = "f128" if k % 4 == 3 else "f64"
+            if fl == "f128":
+                d = r2.range(4, 113)
+            rt.append((q, d, b, mag, f"{k} roundtrip n={r2.choice([16, 64])} base2k={q} delta={d} budget={b} mag={mag} seed={k} float={fl}"))
         rc, rout, _ = ctx.run_lines(binp, ["ckks"], [x[-1] for x in rt])
         worst_enc, worst_full, rt_bad = -1074.0, -99.0, 0
         for (q, d, b, mag, req), l in zip(rt, rout):
